@@ -194,7 +194,7 @@ Proof.
   { intros x H. simpl. apply in_or_app. left. apply (i_sids _ I). exact H. }
   destruct (shows s0 f) eqn:Esh.
   - apply shows_true in Esh as [Emf Emk].
-  - change (_base_add id ;;; ff <- gets focus_follow ;; (if ff then focus_set_flow (Some id) else ret tt) ;;; send_view_add id)
+    change (_base_add id ;;; ff <- gets focus_follow ;; (if ff then focus_set_flow (Some id) else ret tt) ;;; send_view_add id)
       with (show_flow id).
     assert (Hst0 : In id (store s0)) by (simpl; apply in_or_app; right; left; reflexivity).
     assert (Hf0 : forall g, focus s0 = Some g -> In g (raw_ids s0)).
